@@ -194,6 +194,10 @@ def c04(chk):
     mc_store(chk)
     trace = drive(chk, "history")
     chk.validate("Trace_Archive", trace, "history", scope=scope_of("C04"), parallel=6, cuts=True, timeout=3000)
+    # save + reopen of archives large enough for leaf directories (steered onto the root budget)
+    trace_s = drive(chk, "steer")
+    need_stat(chk, "steer_saves_with_leaf_directories", 4)
+    chk.validate("Trace_Archive", trace_s, "steer", scope=scope_of("C04"), parallel=8, cuts=True, timeout=3000)
     seg = segment_with(trace, lambda o: o["ev"] == "Get" and o["res"] == "some")
     neg_segment(chk, seg, lambda o: o.update(tok=o["tok"] + 1), "get_tok", "C04")
     neg_segment(chk, seg, lambda o: o.update(res="none"), "get_none", "C04")
@@ -473,7 +477,185 @@ def c06(chk):
                        "127; plus whole archives steered onto the same window; judged by Trace_Archive!WriteDirsTags / Archive!WellFormed")
 
 
-REGISTRY = {"C01": c01, "C02": c02, "C03": c03, "C04": c04, "C06": c06, "C11": c11, "C19": c19, "C05": c05, "C07": c07, "C09": c09, "C10": c10, "C16": c16}
+def neg_events(chk, module, events, name, expect_prefix):
+    """each corrupted event (one per line) must be rejected with a tag of the given prefix"""
+    p = os.path.join(chk.wd, f"neg_{name}.ndjson")
+    with open(p, "w") as f:
+        for e in events:
+            f.write(e if e.endswith("\n") else e + "\n")
+    n, fails, _ = vlib.validate_trace(module, p, chk.wd, "neg_" + name, timeout=600)
+    bad = set(x[0] for x in fails if str(x[2]).startswith(expect_prefix))
+    missing = [i for i in range(1, len(events) + 1) if i not in bad]
+    if missing:
+        raise ToolError(f"negative control {name}: corrupted events {missing} were accepted")
+    chk.cov["negative_controls_rejected"] += len(events)
+
+
+def mc_io(chk):
+    chk.mc("MC_IO", "MC_IO.cfg", workers=8, timeout=1200)
+    # control: the deviation (absolute header / end positions) must violate the start-position clauses
+    res = vlib.run_tlc("MC_IO", "MC_IO_absolute.cfg", chk.wd, "mc_io_absolute", workers=4, timeout=600)
+    text = open(res["out_path"]).read()
+    if "Invariant PrefixUntouched is violated" not in text and "Invariant Placement is violated" not in text:
+        raise ToolError("MC_IO control: the 'absolute' variant does not violate the start-position invariants (model vacuous)")
+    chk.cov["negative_controls_rejected"] += 1
+
+
+def c08(chk):
+    chk.mc("MC_Tree", "MC_Tree_thorough.cfg" if thorough(chk) else "MC_Tree.cfg", workers=12, timeout=3000)
+    chk.mc("MC_Codec", "MC_Codec.cfg", workers=8, timeout=3000)
+    stim, n = gen_stimuli(chk, "MC_Hazards", "Gen_Hazards.cfg", "hazards", timeout=600)
+    trace = drive(chk, "malformed", ["--stim", stim])
+    need_stat(chk, "malformed_inputs", 1000)
+    def classify(replay):
+        e = replay["event"]
+        bad = [o for o in e.get("outcomes", []) if o["kind"] not in ("ok", "err")]
+        return {"class": e.get("class", "?").split("/c")[0] if e.get("class", "").startswith("hazard/") else e.get("class"),
+                "call": bad[0]["call"] if bad else None, "kind": bad[0]["kind"] if bad else None}
+    chk.validate("Trace_Malformed", trace, "malformed", scope=scope_of("C08"), parallel=8, timeout=3000, classify=classify)
+    ev = first_event(trace, lambda o: o["ev"] == "Mal" and not o["skipped"] and len(o["outcomes"]) > 3 and "plain" in o)
+    def c_panic(o):
+        o["outcomes"][2]["kind"] = "panic"
+    def c_abort(o):
+        o["outcomes"][-1]["kind"] = "signal"
+    neg_events(chk, "Trace_Malformed", [vlib.mutate_json_line(ev, c_panic), vlib.mutate_json_line(ev, c_abort)], "malformed", "C08")
+    o = json.loads(ev)
+    chk.sample({"class": o["class"], "len": o["len"], "outcomes": o["outcomes"][:6]})
+    chk.assumptions += ["the worker process runs under an address-space limit of 16 GiB and a progress timeout of 20 s; smaller over-allocations are not flagged",
+                        "inputs whose declared work exceeds 200000 tiles / directory visits (Malformed!Verdict = overbudget) are outside the claim and skipped",
+                        "built with overflow-checks and debug-assertions on, so arithmetic overflow surfaces as a panic"]
+    chk.cov["rule"] = ("one crafted archive per hazard class (TLC composes the hostile directory bytes) x 4 codecs for root-only classes; every "
+                       "prefix and every single-byte substitution with {00,01,7f,80,ff} of 5 small valid archives; structure-aware random "
+                       "mutations; every input through ~25 calls (header, directory, archive open full/partial, lookups, re-write, "
+                       "read_directories, decompress_all, zxy, async twins) in a sandboxed worker")
+
+
+def c13(chk):
+    mc_io(chk)
+    stim, n = gen_stimuli(chk, "MC_Sched", "Gen_Sched_thorough.cfg" if thorough(chk) else "Gen_Sched.cfg", "sched", timeout=900)
+    trace = drive(chk, "sched", ["--stim", stim])
+    need_stat(chk, "short_transfers_granted", 1000)
+    need_stat(chk, "pending_answers", 1000)
+    chk.validate("Trace_Stream", trace, "sched", scope=scope_of("C13"), parallel=4, timeout=3000)
+    ev = first_event(trace, lambda o: o["ev"] == "Sched" and len(o["runs"]) > 3)
+    def c_v(o):
+        o["runs"][1]["vtok"] += 1000
+    def c_o(o):
+        o["runs"][2]["otok"] += 1000
+    def c_r(o):
+        o["runs"][0]["res"] = "err"
+    neg_events(chk, "Trace_Stream", [vlib.mutate_json_line(ev, f) for f in (c_v, c_o, c_r)], "sched", "C13")
+    o = json.loads(ev)
+    chk.sample({"scenario": o["scenario"], "base": o["base"], "runs": o["runs"][:4]})
+    chk.cov["rule"] = ("scenarios: header / directory / write_directories (fit + spill) / read_directories / archive write (memory, backed, "
+                       "spill) / archive open (full, partial) / tile lookup x 4 codecs x sync/async; schedules: every composition of n <= 10 "
+                       "(13 thorough) enumerated by TLC (strided in quick), fixed chunk sizes 1..127 for headers and 1..24 otherwise, seeded "
+                       "random schedules; async runs add Pending patterns; result token and output bytes must equal the unfragmented baseline")
+
+
+def c15(chk):
+    mc_io(chk)
+    trace = drive(chk, "faults")
+    need_stat(chk, "fault_runs", 3000)
+    def classify(replay):
+        e = replay["event"]
+        sc = e.get("scenario", "")
+        bad = [r["k"] for r in e.get("runs", []) if r["res"] != "err"]
+        return {"scenario_kind": sc.split("/")[0], "codec": sc.split("/")[1] if "/" in sc else "", "api": sc.split("/")[-1],
+                "which": e.get("which"), "fault_points_from_end": sorted({e["n"] - k for k in bad})}
+    chk.validate("Trace_Stream", trace, "faults", scope=scope_of("C15"), parallel=4, timeout=3000, classify=classify)
+    ev = first_event(trace, lambda o: o["ev"] == "Fault" and len(o["runs"]) > 3 and all(r["res"] == "err" for r in o["runs"]))
+    def c_ok(o):
+        o["runs"][1]["res"] = "ok"
+    def c_panic(o):
+        o["runs"][0]["res"] = "panic"
+    neg_events(chk, "Trace_Stream", [vlib.mutate_json_line(ev, f) for f in (c_ok, c_panic)], "faults", "C15")
+    o = json.loads(ev)
+    chk.sample({"scenario": o["scenario"], "which": o["which"], "n": o["n"], "runs": o["runs"][:5]})
+    chk.cov["rule"] = ("for each scenario (as C13; input and output stream faulted separately) the fault-free run has N stream operations; for "
+                       "every k < N (sampled for N > 400 in quick) the run in which operation k and all later ones fail must return Err")
+    chk.cov["exhaustive"] = False
+
+
+def c17(chk):
+    mc_io(chk)
+    trace = drive(chk, "crash")
+    need_stat(chk, "crash_points", 200)
+    chk.validate("Trace_Stream", trace, "crash", scope=scope_of("C17"), timeout=3000)
+    ev = first_event(trace, lambda o: o["ev"] == "Crash" and len(o["runs"]) > 5)
+    def c_open(o):
+        o["runs"][2]["res"] = "ok"; o["runs"][2]["same"] = False
+    def c_final(o):
+        o["runs"][-1]["res"] = "err"
+    neg_events(chk, "Trace_Stream", [vlib.mutate_json_line(ev, f) for f in (c_open, c_final)], "crash", "C17")
+    o = json.loads(ev)
+    chk.sample({"scenario": o["scenario"], "n": o["n"], "write_ops": o["write_ops"], "seek_ops": o["seek_ops"], "runs": o["runs"][:4] + o["runs"][-2:]})
+    chk.assumptions += ["each write call is atomic and the stream is fresh (as the property's quantifier states)",
+                        "image equality is computed by the harness by byte comparison of the replayed image with the final image"]
+    chk.cov["rule"] = ("archive writes (0 / 7 / 4300 tiles incl. leaf spill, from memory and from a backed archive, 4 codecs, sync/async) into a "
+                       "recording stream; for every k in 0..N (sampled for N > 300 in quick) the image after the first k operations is opened "
+                       "with from_bytes; an image that opens must equal the final image")
+
+
+def c18(chk):
+    mc_io(chk)
+    trace = drive(chk, "startpos")
+    need_stat(chk, "startpos_runs_p_gt_0", 20)
+    chk.validate("Trace_Archive", trace, "startpos", scope=scope_of("C18"), parallel=4, timeout=3000)
+    ev = first_event(trace, lambda o: o["ev"] == "SaveAt" and o["res"] == "ok" and o["p"] != [0, 0, 0, 0] and "file" in o and len(o["tiles"]) >= 2)
+    def c_prefix(o):
+        o["prefix_intact"] = False
+    def c_pos(o):
+        o["final_pos"][3] = (o["final_pos"][3] + 1) % 65536
+    def c_tile(o):
+        o["tiles"][0]["tok"] += 1000
+    def c_hdr(o):
+        o["file"]["hdr"][8] = (o["file"]["hdr"][8] + 1) % 256
+    try:
+        neg_events(chk, "Trace_Archive", [vlib.mutate_json_line(ev, f) for f in (c_prefix, c_pos, c_tile, c_hdr)], "startpos", "C18")
+    except ToolError:
+        raise
+    o = json.loads(ev)
+    chk.sample({"p": o["p"], "api": o["api"], "comp": o["comp"], "final_pos": o["final_pos"], "stream_len": o["stream_len"], "n_tiles": len(o["tiles"])})
+    chk.cov["rule"] = ("to_writer / to_async_writer started at P in {0,1,10,127,4096,random} on streams prefilled beyond P or exactly P long, "
+                       "archives of 0 / 7 / 4300 (leaf spill) tiles: bytes before P intact, no write below P, Archive!WellFormed on the stream "
+                       "contents from P (all header offsets relative to P), addressed content = written content, final position = archive end")
+
+
+def c20(chk):
+    mc_io(chk)
+    stim, n = gen_stimuli(chk, "MC_Foreign", "Gen_Foreign.cfg", "foreign", timeout=600)
+    trace = drive(chk, "reads", ["--stim", stim])
+    need_stat(chk, "read_traces", 40)
+    chk.validate("Trace_Archive", trace, "reads", scope=scope_of("C20"), parallel=8, cuts=True, timeout=3000)
+    seg = segment_with_file(trace, lambda o: o["ev"] == "OpenReads" and o["res"] == "ok" and len(o["reads"]) >= 2)
+    f = json.loads(seg[0])["file"]
+    data_off = f["hdr"][56:64]
+    def c_data(o):
+        # a read inside the tile-data section
+        v = int.from_bytes(bytes(data_off), "little")
+        o["reads"].append([[(v >> 48) & 0xffff, (v >> 32) & 0xffff, (v >> 16) & 0xffff, v & 0xffff], 1])
+    neg_segment(chk, seg, c_data, "open_reads_data", "C20")
+    seg = segment_with_file(trace, lambda o: o["ev"] == "TileReads" and any(c["res"] == "some" for c in o["cases"]))
+    def c_over(o):
+        for c in o["cases"]:
+            if c["res"] == "some":
+                c["reads"][-1][1] += 1; return
+    neg_segment(chk, seg, c_over, "tile_overread", "C20")
+    def c_absent(o):
+        for c in o["cases"]:
+            if c["res"] == "none":
+                c["reads"] = [[[0, 0, 0, 200], 4]]; return
+    neg_segment(chk, seg, c_absent, "absent_reads", "C20")
+    o = json.loads(seg[1])
+    chk.sample({"ev": o["ev"], "api": o["api"], "cases": o["cases"][:3]})
+    chk.cov["rule"] = ("library-written (4 codecs, with and without leaf directories) and foreign layouts (permuted sections, gaps, nested leaves) "
+                       "and the stamen / firenze fixtures, opened full and range-filtered, sync and async, through a recording stream: every read "
+                       "of the open lies in the header, metadata, root or leaf section; every lookup reads exactly the tile's range; absent "
+                       "IDs read nothing")
+
+
+REGISTRY = {"C01": c01, "C02": c02, "C03": c03, "C04": c04, "C06": c06, "C11": c11, "C19": c19, "C05": c05, "C07": c07, "C08": c08, "C09": c09, "C13": c13, "C15": c15, "C17": c17, "C18": c18, "C20": c20, "C10": c10, "C16": c16}
 
 
 def replay(pid, path):
